@@ -680,7 +680,7 @@ def chain_engine(prop, tier, replay, t0):
         st = vlib.harness(['exec', '-plan', 'file:0', '-cases', replay, '-out', trace])
     else:
         with open(cases, 'w') as out:
-            for ty in ('str', 'int'):
+            for ty in ('str', 'str2', 'int'):
                 # (A) every chain the type system admits: the code-shaped builder machine equals the declarative reading
                 mc = vlib.run_tlc('ZogChain', vlib.cfg_text(chain_consts(ty, 3, level), init='ChainInit', next_='ChainNext', invariants=['BuilderMeansWhatItSays']), workers=16, timeout=3600)
                 vlib.tlc_ok(mc, 'ZogChain/' + ty)
@@ -741,16 +741,19 @@ def heap_engine(prop, tier, replay, t0):
     vlib.build_harness()
     d = vlib.scratch('heap.')
     base = {'Sites': 'SitesDef', 'TraceFile': '"trace.ndjson"', 'VerdictFile': '"verdicts.ndjson"'}
-    cfg = 'CONSTANTS\n  Sites <- SitesDef\n  CopyAt <- CopyAll\n  TraceFile = "trace.ndjson"\n  VerdictFile = "verdicts.ndjson"\nINIT Init\nNEXT Next\nINVARIANTS SchemaAndInputImmutable NoSharedMemory SecondRunSame\nCHECK_DEADLOCK FALSE\n'
+    cfg = 'CONSTANTS\n  Sites <- SitesDef\n  CopyAt <- CopyAll\n  ScrubOnRelease = FALSE\n  TraceFile = "trace.ndjson"\n  VerdictFile = "verdicts.ndjson"\nINIT Init\nNEXT Next\nINVARIANTS SchemaAndInputImmutable NoSharedMemory SecondRunSame\nCHECK_DEADLOCK FALSE\n'
     mc = vlib.run_tlc('MC_Heap', cfg, workers=4, timeout=600)
     vlib.tlc_ok(mc, 'ZogHeap')
     # the design with one aliasing site must be rejected by the same invariants (non-vacuity of the model)
     mut = vlib.run_tlc('MC_Heap', cfg.replace('CopyAt <- CopyAll', 'CopyAt <- AliasValidate'), workers=4, timeout=600)
     if not mut['violated']:
         raise Inconclusive('ZogHeap: the aliasing variant is not rejected (vacuous model)')
+    mut2 = vlib.run_tlc('MC_Heap', cfg.replace('ScrubOnRelease = FALSE', 'ScrubOnRelease = TRUE'), workers=4, timeout=600)
+    if not mut2['violated']:
+        raise Inconclusive('ZogHeap: the scrub-on-release variant is not rejected (vacuous model)')
     trace = os.path.join(d, 'heap.ndjson')
     st = vlib.harness(['heap', '-out', trace])
-    tcfg = 'CONSTANTS\n  Sites <- SitesDef\n  CopyAt <- CopyAll\n  TraceFile = "trace.ndjson"\n  VerdictFile = "verdicts.ndjson"\nINIT TraceInit\nNEXT TraceNext\nCHECK_DEADLOCK FALSE\n'
+    tcfg = 'CONSTANTS\n  Sites <- SitesDef\n  CopyAt <- CopyAll\n  ScrubOnRelease = FALSE\n  TraceFile = "trace.ndjson"\n  VerdictFile = "verdicts.ndjson"\nINIT TraceInit\nNEXT TraceNext\nCHECK_DEADLOCK FALSE\n'
     res = vlib.run_tlc('MC_Heap', tcfg, workers=1, timeout=600, files={'trace.ndjson': trace})
     vf = os.path.join(res['dir'], 'verdicts.ndjson')
     if not os.path.exists(vf):
